@@ -41,7 +41,7 @@ CLAIMS = {
                 "index) and paired with edge writes; crosses only where the edge entry is 0; Ok(true) only under edges.sum()==n*n, exhausted "
                 "candidates give Err; lookup reads [idx(lhs), idx(rhs)] in all variants. By induction every entry of an Ok market is the product of "
                 "quotes along a path with inverses on reversed edges, quoted pairs returned as quoted."
-                " Also included: C10's state rules R10.3-R10.6, the FXRates loader rule (S20.2: a stored market goes through try_new) and R10.7 (Python-facing FXRates methods delegate unchanged). S16.1 is included (a stored market's quotes come back exactly: exact float text round trip); the starting-array builders are found by what they return, not by name. R09.8: the edge-count capacity; the Ccy/FXPair loader rules are included. R09.9: a quote is stored as given (FXRate::try_new, and Python's FXRate(...) is that constructor). R09.10: == and hash of Ccy and FXPair are the derived structural ones.",
+                " Also included: C10's state rules R10.3-R10.6, the FXRates loader rule (S20.2: a stored market goes through try_new) and R10.7 (Python-facing FXRates methods delegate unchanged). S16.1 is included (a stored market's quotes come back exactly: exact float text round trip); the starting-array builders are found by what they return, not by name. R09.8: the edge-count capacity; the Ccy/FXPair loader rules are included. R09.9: a quote is stored as given (FXRate::try_new, and Python's FXRate(...) is that constructor). R09.10: == and hash of Ccy and FXPair are the derived structural ones (or a hand-written field-by-field conjunction). The fx_array / fx_vector exporters of R10.7 are included.",
         "design_ref": "DESIGN.md §4 C09",
         "note": "Not decided (declared): that every valid tree is accepted (liveness of the recursive fill-in); order/base independence as executed; rounding.",
         "technique": "path flattening of symbolic summaries; array-comprehension semantics of indexed writes (chain typing); quantifier shapes",
@@ -52,7 +52,7 @@ CLAIMS = {
                 "self in update/set_ad_order); update refuses unknown pairs (forall/exists shape), replaces the slot found by pair equality, rebuilds on "
                 "currencies[0] from the full list and replaces all three fields; set_ad_order's 9 cases: identity / rebuild at the target order / "
                 "value-preserving element projection into n x n."
-                ' Also included: the AD operator and alignment rules (C01/C02/C03) and R10.7 (Python-facing methods); R09.1 (construction validation) is included.',
+                ' Also included: the AD operator and alignment rules (C01/C02/C03) and R10.7 (Python-facing methods, incl. the fx_array / fx_vector exporters: the stored matrix read row by row for every kind); R09.1 and R09.10 are included.',
         "design_ref": "DESIGN.md §4 C10",
         "note": "Not decided: numeric sensitivities on concrete markets (C01/C02 along C09's chain typing). Trusted: lib/cel.py, MIR place syntax.",
         "technique": "cross-language constant agreement; MIR reachability (no write before last fallible point); symbolic case evaluation with explore()",
@@ -75,7 +75,7 @@ CLAIMS = {
                 "NamedCal and every CalType variant forward to the wrapped calendar; Cal's leaves are the mask/holiday membership tests; try_new's three "
                 "paths (lower-case before split, >2 parts Err, part 0 -> calendars, part 1 -> settlement) and parse_cals (one lookup per piece, ? "
                 "propagation); the behavioural equalities quantify over 1970-01-01..2200-12-31 and require both agreements on the same date."
-                ' Also included: R05.6 (Python-facing calendar methods). R06.5: the Python-facing __eq__ of the three calendar classes is the core == for every kind of right operand. The NamedCal loader rule (S20.2) and the storage rules of the calendar types (S16.2/3/7) are included; so is the table wiring of C07 (R07.1/R07.2: every name resolves to its own table; fed = nyc minus Good Friday). R06.6: UnionCal::new stores its two lists as given.',
+                ' Also included: R05.6 (Python-facing calendar methods). R06.5: the Python-facing __eq__ of the three calendar classes is the core == for every kind of right operand. The NamedCal loader rule (S20.2) and the storage rules of the calendar types (S16.2/3/7) are included; so is the table wiring of C07 (R07.1/R07.2: every name resolves to its own table; fed = nyc minus Good Friday). R06.6: UnionCal::new stores its two lists as given. R07.5 (Cal::new stores the given holidays and exactly the weekdays of the given mask) is included.',
         "design_ref": "DESIGN.md §4 C06",
         "note": "Not decided: nothing about concrete dates (C07). Trusted: lib/cel.py quantifier model; cal_date_range being calendar independent is checked.",
         "technique": "symbolic evaluation with quantifier normal forms (NNF); path flattening; delegation tables",
@@ -86,7 +86,7 @@ CLAIMS = {
                 "four modified rules as 'F(date), unless the month differs then G(original date)' with F, G opposite members of one family; both "
                 "dispatch tables per modifier (Act = identity) and roll()'s table selection; no calendar type overrides a provided method. The idiom's "
                 "postcondition is the statement; calendars never enter the argument, so it holds for arbitrary calendars."
-                " Also included: C06's predicate rules R06.0-R06.2 and the Python-facing calendar methods (R05.6: arguments handed to the core methods unchanged); R06.3/R06.6: a named or explicit combination is built from exactly the calendars named or given.",
+                " Also included: C06's predicate rules R06.0-R06.2 and the Python-facing calendar methods (R05.6: arguments handed to the core methods unchanged); R06.3/R06.6: a named or explicit combination is built from exactly the calendars named or given; R07.5: Cal::new keeps the given working week.",
         "design_ref": "DESIGN.md §4 C04",
         "note": "Not decided: termination; dates outside chrono's range. Trusted: lib/cel.py loop summarisation; chrono's day arithmetic.",
         "technique": "symbolic summarisation of loops and dispatch tables over typed HIR, compared with idiom normal forms",
@@ -187,7 +187,7 @@ CLAIMS = {
                 "repository's own declarative Holiday(...) rule lists over 1970-2200 (the scripts are parsed with ast, never executed); partial "
                 "calendars must contain every weekday occurrence of their interpretable rules; the nine fixing histories must equal the calendars' "
                 "business days over their span. All ~29 000 literals and all 14 names are covered on every run."
-                " Also included: Cal's leaf membership tests (R06.0, R06.2) and the range enumeration used by the back-test (R05.1, R05.5, R04.1, R04.5). The storage rules of the calendar types are included (C16 S16.2/S16.3/S16.7 for calendars::calendar::*: a restored calendar is the stored one). Name-to-table wiring and plumbing are obtained by evaluating the getters on each literal name. The exported get_named_calendar is get_calendar_by_name(name) with the name as given. R06.3 (a combined name is parsed piece by piece through get_calendar_by_name, every time) is included.",
+                " Also included: Cal's leaf membership tests (R06.0, R06.2) and the range enumeration used by the back-test (R05.1, R05.5, R04.1, R04.5). The storage rules of the calendar types are included (C16 S16.2/S16.3/S16.7 for calendars::calendar::*: a restored calendar is the stored one). Name-to-table wiring and plumbing are obtained by evaluating the getters on each literal name. The exported get_named_calendar is get_calendar_by_name(name) with the name as given. R06.3 (a combined name is parsed piece by piece through get_calendar_by_name, every time) is included. The holidays getters handed to Python return every stored holiday (for a union: the sorted union over all members).",
         "design_ref": "DESIGN.md §4 C07",
         "note": "Trusted: lib/holidays.py (interpreter of the pandas Holiday subset; reproduces every fully interpretable table exactly), python ast/csv. "
                 "Not decided: whether the scripts themselves match the central banks' publications; holidays produced by script-local observance "
